@@ -272,6 +272,17 @@ impl TopologicalSortMachine
                                 frame.sub_index = *sub_index;
                                 reverser.push(frame);
                             }
+                            else if let Some(position) = stack.iter().position(
+                                |f| f.index == *buffer_index && !f.visited)
+                            {
+                                /*  The source's rule is already on the stack, but only as a sibling waiting
+                                    for its turn, not as an ancestor.  This frame needs it first, so move it
+                                    to the top. */
+                                let mut pending = stack.remove(position);
+                                indices_in_stack.remove(buffer_index);
+                                pending.sub_index = *sub_index;
+                                reverser.push(pending);
+                            }
                             else
                             {
                                 if frame.index == *buffer_index
